@@ -666,9 +666,6 @@ func (in *interp) run(body []*gen.Stmt) {
 				in.out.Blocks = append(in.out.Blocks, *b)
 			}
 		case "bind":
-			if len(in.blocks) > 0 {
-				in.unspec = "bind inside a block"
-			}
 			if in.out.Binding != nil {
 				in.out.Warnings = append(in.out.Warnings, st)
 			}
